@@ -51,6 +51,10 @@ def run(ctx):
     RR.add("f2", dict(base, mode="f2", n_workers=2), 420)
     for n in real_ns:
         RR.add(f"real{n}", dict(base, mode="c08", n_workers=n), 600)
+    # a schedule no synchronous context can produce: worker 1 of 3 is still busy (45 s on its first item) long after the
+    # last-created worker has exited; it is the SOURCE of the first pairwise merge, so a parallel_add that starts
+    # merging before every worker has finished loses its item (count-min only: keeps the merge rounds short)
+    RR.add("slow1of3", dict(base, mode="c08", n_workers=3, combo=["cms"], slow_worker0=[1, 45.0]), 600)
 
     env = pc.Env(ctx)
     import logging
@@ -164,7 +168,7 @@ def run(ctx):
     env.close()
 
     ctx.cov["exhaustive"] = True
-    ctx.cov["real_spawned_parallel_add_calls"] = 1 + len(real_ns)
+    ctx.cov["real_spawned_parallel_add_calls"] = 2 + len(real_ns)
     ctx.cov["schedules_enumerated"] = S.n_sched
     ctx.cov["rule"] = (
         f"EXHAUSTIVE sub-spaces (exhaustive only for these): S1 = all {len(scheds1)} schedules (every assignment of {n1} items to "
